@@ -18,6 +18,7 @@ def run(ctx):
     RK.normalize_first(ctx, "R01.d")
     RP.panic_inventory(ctx, "R01.e")
     RP.unsigned_subtractions(ctx, "R01.f")
+    RP.narrow_arithmetic(ctx, "R01.h")
     # debug assertions of the checked build are obligations too
     RH.new_pair_guards(ctx, "R01.g")
     RK.renumber_after_mutation(ctx, "R01.g", floor=1)
